@@ -326,6 +326,32 @@ theorem any_num_tune_constructs (numTune : ℕ) (ew sw growth : ℝ) (h1 : 0 ≤
     · omega
     · exact h
 
+/-- **C06 / transformation frozen, over whole histories**: from any state reached at the start of
+    the final step-size window (or later), running ANY further history of good/rejected draws —
+    through the rest of warmup and all of sampling — never switches, adapts or changes the
+    mass-matrix estimator, never re-runs the step-size search, and leaves the estimator contents,
+    window size and update bookkeeping exactly as they were. -/
+theorem transformation_frozen_run (s : SchedState) (d : ℕ) (hist : List Bool) (h : d ≥ p.finalWindow) :
+    (∀ a ∈ (schedRun p s d hist).2, a.switched = false ∧ a.adaptCalled = false ∧ a.didChange = false ∧
+        a.sampleAdded = false ∧ a.reinit = false) ∧
+    (schedRun p s d hist).1.fg = s.fg ∧ (schedRun p s d hist).1.bg = s.bg ∧
+    (schedRun p s d hist).1.curWindow = s.curWindow ∧ (schedRun p s d hist).1.lastUpdate = s.lastUpdate ∧
+    (schedRun p s d hist).1.hasInitial = s.hasInitial := by
+  induction hist generalizing s d with
+  | nil => simp [schedRun]
+  | cons g gs ih =>
+    have h1 := transformation_frozen p s d g h
+    have h2 := ih (schedStep p s d g).1 (d + 1) (by omega)
+    simp only at h1
+    obtain ⟨a1, a2, a3, a4, a5, e1, e2, e3, e4, e5⟩ := h1
+    obtain ⟨b, f1, f2, f3, f4, f5⟩ := h2
+    simp only [schedRun]
+    refine ⟨?_, f1.trans e1, f2.trans e2, f3.trans e3, f4.trans e4, f5.trans e5⟩
+    intro a ha
+    rcases List.mem_cons.mp ha with rfl | ha
+    · exact ⟨a1, a2, a3, a4, a5⟩
+    · exact b a ha
+
 /-- `next_window_size > current_window_size` for every growth factor (so windows never shrink). -/
 theorem nextWindow_grows (growth : ℝ) (c : ℕ) : c < nextWindowOf growth c := by
   unfold nextWindowOf; exact Nat.lt_of_lt_of_le (Nat.lt_succ_self c) (Nat.le_max_left _ _)
